@@ -847,6 +847,254 @@ def _assignments(stmts, out):
     return out
 
 
+class LocalDefs:
+    """Sound inlining of local single-assignment definitions (`dt = self.dt`, `heat_capacity = cp_solution * mass`,
+    `sigma_solid = sigma_k[solidMask]`) into a target formula, so that a refactoring that merely NAMES a
+    sub-expression does not change the generated text.
+
+    A Name `x` read in the target statement S is replaced by the right-hand side of its definition D iff
+      (a) `x` is not one of the parameter names the committed generated definition already has (`keep`),
+      (b) `x` has exactly one binding in the function and it is a plain `x = <expr>` (no augmented / tuple / loop /
+          with / import / parameter binding, no global/nonlocal/del),
+      (c) D precedes S and sits in a block that encloses S (so D has run whenever S runs),
+      (d) nothing D reads can have changed between D and S: no binding of, and no subscript/attribute store or
+          method call through, any name read by D in the statements between D and S, nor anywhere inside a loop
+          that encloses S but not D.  `obj.attr` reads conflict only with stores/calls through the same
+          `obj.attr` (or a rebinding of `obj`, or a method called on `obj` itself).
+    The replacement is the translated expression of D (parenthesised as every compound expression is), so the
+    float operation order is unchanged.  Applied recursively (each inlined name is checked against the same S)."""
+
+    def __init__(self, fd):
+        self.fd = fd
+        self.stmts = []       # (order, node, path) for every simple statement; path = tuple of compound-node ids
+        self.loops_of = {}    # id(stmt) -> tuple of enclosing loop nodes
+        self.bind = {}        # name -> list of (kind, stmt)
+        self.params = {a.arg for a in fd.args.args + fd.args.kwonlyargs + fd.args.posonlyargs}
+        if fd.args.vararg:
+            self.params.add(fd.args.vararg.arg)
+        if fd.args.kwarg:
+            self.params.add(fd.args.kwarg.arg)
+        self.bad_names = set()
+        self._walk(fd.body, (), ())
+
+    def _b(self, name, kind, st):
+        self.bind.setdefault(name, []).append((kind, st))
+
+    def _targets(self, t, kind, st):
+        if isinstance(t, ast.Name):
+            self._b(t.id, kind, st)
+        elif isinstance(t, (ast.Tuple, ast.List)):
+            for e in t.elts:
+                self._targets(e, "tuple", st)
+        elif isinstance(t, ast.Starred):
+            self._targets(t.value, "tuple", st)
+
+    def _walk(self, stmts, path, loops):
+        for st in stmts:
+            self.stmts.append((len(self.stmts), st, path))
+            self.loops_of[id(st)] = loops
+            if isinstance(st, ast.Assign):
+                for t in st.targets:
+                    self._targets(t, "plain" if (len(st.targets) == 1 and isinstance(t, ast.Name)) else "multi", st)
+            elif isinstance(st, ast.AugAssign):
+                self._targets(st.target, "aug", st)
+            elif isinstance(st, ast.AnnAssign):
+                self._targets(st.target, "ann", st)
+            elif isinstance(st, (ast.For, ast.AsyncFor)):
+                self._targets(st.target, "for", st)
+                self._walk(st.body, path + ((id(st), "body"),), loops + (st,))
+                self._walk(st.orelse, path + ((id(st), "else"),), loops)
+            elif isinstance(st, ast.While):
+                self._walk(st.body, path + ((id(st), "body"),), loops + (st,))
+                self._walk(st.orelse, path + ((id(st), "else"),), loops)
+            elif isinstance(st, ast.If):
+                self._walk(st.body, path + ((id(st), "body"),), loops)
+                self._walk(st.orelse, path + ((id(st), "else"),), loops)
+            elif isinstance(st, (ast.With, ast.AsyncWith)):
+                for it in st.items:
+                    if it.optional_vars is not None:
+                        self._targets(it.optional_vars, "with", st)
+                self._walk(st.body, path + ((id(st), "body"),), loops)
+            elif isinstance(st, ast.Try):
+                for blk, nm in ((st.body, "body"), (st.orelse, "else"), (st.finalbody, "final")):
+                    self._walk(blk, path + ((id(st), nm),), loops)
+                for h in st.handlers:
+                    if h.name:
+                        self._b(h.name, "except", st)
+                    self._walk(h.body, path + ((id(st), "handler%d" % id(h)),), loops)
+            elif isinstance(st, (ast.Import, ast.ImportFrom)):
+                for a in st.names:
+                    self._b((a.asname or a.name).split(".")[0], "import", st)
+            elif isinstance(st, (ast.FunctionDef, ast.AsyncFunctionDef, ast.ClassDef)):
+                self._b(st.name, "def", st)
+            elif isinstance(st, (ast.Global, ast.Nonlocal)):
+                self.bad_names |= set(st.names)
+            elif isinstance(st, ast.Delete):
+                for t in st.targets:
+                    for n in ast.walk(t):
+                        if isinstance(n, ast.Name):
+                            self.bad_names.add(n.id)
+        # walrus / comprehension bindings anywhere
+        for st in stmts:
+            for n in ast.walk(st):
+                if isinstance(n, ast.NamedExpr) and isinstance(n.target, ast.Name):
+                    self._b(n.target.id, "walrus", st)
+
+    @staticmethod
+    def _chain(n):
+        """(base name, first attribute or None) of an attribute/subscript chain"""
+        first = None
+        while isinstance(n, (ast.Attribute, ast.Subscript)):
+            if isinstance(n, ast.Attribute):
+                first = n.attr
+            else:
+                first = None if first is None else first
+                # a subscript on the way resets nothing: obj.attr[...] is still `obj.attr`
+            n = n.value
+        return (n.id, first) if isinstance(n, ast.Name) else (None, None)
+
+    @staticmethod
+    def _reads(expr):
+        """names read by an expression: set of (base, first attribute or None)"""
+        out = set()
+
+        def go(n):
+            if isinstance(n, (ast.Attribute, ast.Subscript)):
+                b, a = LocalDefs._chain(n)
+                if b is not None:
+                    out.add((b, a))
+                # index expressions are reads too
+                m = n
+                while isinstance(m, (ast.Attribute, ast.Subscript)):
+                    if isinstance(m, ast.Subscript):
+                        go(m.slice)
+                    m = m.value
+                return
+            if isinstance(n, ast.Name):
+                out.add((n.id, None))
+                return
+            for c in ast.iter_child_nodes(n):
+                go(c)
+        go(expr)
+        return out
+
+    def _writes(self, st):
+        """what a statement (not entering nested compound bodies - they are listed separately) may change:
+        set of (base, first attr or None); (base, '*') = anything reachable from base"""
+        out = set()
+
+        def store(t):
+            if isinstance(t, ast.Name):
+                out.add((t.id, "*"))
+            elif isinstance(t, (ast.Tuple, ast.List)):
+                for e in t.elts:
+                    store(e)
+            elif isinstance(t, ast.Starred):
+                store(t.value)
+            elif isinstance(t, (ast.Attribute, ast.Subscript)):
+                b, a = self._chain(t)
+                if b is not None:
+                    out.add((b, a if a is not None else "*"))
+        heads = []
+        if isinstance(st, ast.Assign):
+            for t in st.targets:
+                store(t)
+            heads = [st.value]
+        elif isinstance(st, (ast.AugAssign, ast.AnnAssign)):
+            store(st.target)
+            heads = [st.value] if st.value is not None else []
+        elif isinstance(st, (ast.For, ast.AsyncFor)):
+            store(st.target)
+            heads = [st.iter]
+        elif isinstance(st, (ast.While, ast.If)):
+            heads = [st.test]
+        elif isinstance(st, (ast.With, ast.AsyncWith)):
+            for it in st.items:
+                heads.append(it.context_expr)
+                if it.optional_vars is not None:
+                    store(it.optional_vars)
+        elif isinstance(st, (ast.Expr, ast.Return)):
+            heads = [st.value] if st.value is not None else []
+        elif isinstance(st, ast.Delete):
+            for t in st.targets:
+                store(t)
+        elif isinstance(st, (ast.FunctionDef, ast.AsyncFunctionDef, ast.ClassDef)):
+            out.add((st.name, "*"))
+        elif isinstance(st, (ast.Raise, ast.Assert)):
+            heads = [x for x in (getattr(st, "exc", None), getattr(st, "test", None), getattr(st, "msg", None)) if x]
+        for h in heads:
+            for n in ast.walk(h):
+                if isinstance(n, ast.Call):
+                    f = n.func
+                    if isinstance(f, ast.Attribute):
+                        # obj.attr.method(...) may change obj.attr; obj.method(...) may change anything of obj
+                        b, a = self._chain(f.value)
+                        if b is not None:
+                            out.add((b, a if a is not None else "*"))
+                    # arguments passed by reference may be mutated by the callee (numpy functions and the
+                    # builtins below do not)
+                    pure = (isinstance(f, ast.Attribute) and isinstance(f.value, ast.Name) and f.value.id in ("np", "numpy", "math")) \
+                        or (isinstance(f, ast.Name) and f.id in ("len", "int", "float", "enumerate", "range", "print", "any",
+                                                                 "all", "sum", "min", "max", "abs", "isinstance", "str", "zip"))
+                    if isinstance(f, ast.Attribute) and isinstance(f.value, ast.Name) and f.value.id in ("np", "numpy", "math"):
+                        out.discard((f.value.id, "*"))
+                    for arg in ([] if pure else list(n.args) + [k.value for k in n.keywords]):
+                        for m in ast.walk(arg):
+                            if isinstance(m, (ast.Attribute, ast.Subscript)):
+                                b, a = self._chain(m)
+                                if b is not None:
+                                    out.add((b, a if a is not None else "*"))
+                            elif isinstance(m, ast.Name):
+                                out.add((m.id, "mut"))
+                elif isinstance(n, ast.NamedExpr):
+                    store(n.target)
+        return out
+
+    @staticmethod
+    def _conflict(reads, writes):
+        for (wb, wa) in writes:
+            for (rb, ra) in reads:
+                if wb != rb:
+                    continue
+                if wa in ("*", "mut"):
+                    return True            # rebound, stored into without an attribute, or handed to a callee
+                if ra is None or ra == wa:
+                    return True            # the object itself is read, or the same attribute
+        return False
+
+    def definition(self, name, target_stmt):
+        """the defining expression of `name` if it may be inlined at `target_stmt`, else None"""
+        if name in self.params or name in self.bad_names:
+            return None
+        bs = self.bind.get(name, [])
+        if len(bs) != 1 or bs[0][0] != "plain":
+            return None
+        D = bs[0][1]
+        pos = {id(st): (i, path) for (i, st, path) in self.stmts}
+        if id(D) not in pos or id(target_stmt) not in pos:
+            return None
+        (iD, pD), (iS, pS) = pos[id(D)], pos[id(target_stmt)]
+        if not (iD < iS and pS[:len(pD)] == pD):
+            return None
+        reads = self._reads(D.value)
+        lD, lS = self.loops_of[id(D)], self.loops_of[id(target_stmt)]
+        outer = [l for l in lS if l not in lD]
+        region = [st for (i, st, _p) in self.stmts if iD < i < iS]
+        if outer:
+            L = outer[0]
+            inside = set()
+            for n in ast.walk(L):
+                inside.add(id(n))
+            region += [st for (_i, st, _p) in self.stmts if id(st) in inside and st is not L]
+            region.append(L)
+        for st in region:
+            if st is D:
+                continue
+            if self._conflict(reads, self._writes(st)):
+                return None
+        return D.value
+
+
 class FormulaTr:
     """expression -> Lean term whose parameters are the free names of the expression.
 
@@ -864,7 +1112,10 @@ class FormulaTr:
     anything else              -> TranslatorError
     """
 
-    def __init__(self, src, fname, imports, ints=()):
+    def __init__(self, src, fname, imports, ints=(), inline=None):
+        self.inline = inline      # (LocalDefs, target statement, keep-set of python names) or None
+        self._inlining = []
+        self.inlined = []         # (name, source text of its definition) actually substituted
         self.src, self.fname, self.imp = src, fname, imports
         self.params = {}   # key (python text) -> lean name
         self.ptypes = {}   # key -> "α" | "Int"
@@ -974,7 +1225,7 @@ class FormulaTr:
             st = n.args[0]
             if not (isinstance(st, ast.Constant) and st.value == 0 and not isinstance(st.value, bool)):
                 self.bad(n, "np.arange only with start 0")
-        ltr = FormulaTr(self.src, self.fname, self.imp, self.ints)
+        ltr = FormulaTr(self.src, self.fname, self.imp, self.ints, self.inline)
         i = self.param("<arange index>", "arange_i")
         if len(n.args) == 3:
             stop, step = ltr.expr(n.args[1]), ltr.expr(n.args[2])
@@ -1044,6 +1295,22 @@ class FormulaTr:
                 return self.param("np.pi", "np_pi")
             if n.id in self.imp.np_alias:
                 self.bad(n, "the numpy module used as a value")
+            if self.inline is not None and n.id not in self.params and n.id not in self.inline[2] \
+                    and n.id not in self._inlining and n.id not in self.ints:
+                d = self.inline[0].definition(n.id, self.inline[1])
+                if d is not None:
+                    self._inlining.append(n.id)
+                    snap = (dict(self.params), dict(self.ptypes), self.arange)
+                    try:
+                        try:
+                            code = self.expr(d)
+                            self.inlined.append((n.id, " ".join(ast.unparse(d).split())))
+                            return code
+                        except TranslatorError:
+                            # not a pure arithmetic definition: keep the name as a parameter
+                            self.params, self.ptypes, self.arange = snap
+                    finally:
+                        self._inlining.pop()
             return self.param(n.id, n.id)
         if isinstance(n, (ast.Subscript, ast.Attribute)):
             if isinstance(n, ast.Attribute) and self.is_np(n.value):
@@ -1133,9 +1400,37 @@ def _sortkey_def(sp, value, st, src, fname):
             f"def {lean_name(sp.name)} ({' '.join(params)} : α) : Bool :=\n  {ge(0)}\n")
 
 
-def _formula_defs(src, fname, func, specs, imp, tree, seen_names):
+def _old_params(path):
+    """python names of the parameters of every definition in the committed generated file: the names the GenTie
+    theorems apply with named arguments; any OTHER local name of the source may be inlined (LocalDefs)"""
+    try:
+        text = Path(path).read_text()
+    except OSError:
+        return None
+    out = {}
+    for m in re.finditer(r"parameters: (.*?) -/\ndef (\S+)", text, re.S):
+        out[m.group(2)] = set(k.strip("`") for k in re.findall(r"`[^`]*`", m.group(1)))
+    return out
+
+
+def _keep_for(old, name):
+    """names NOT to inline for definition `name` (and its `_len` / `_count` / `_elem` companions)"""
+    if old is None:
+        return None
+    ks = set()
+    hit = False
+    for nm in (name, name + "_len", name + "_count", name + "_elem"):
+        ln = lean_name(nm)
+        if ln in old:
+            ks |= old[ln]
+            hit = True
+    return ks if hit else None
+
+
+def _formula_defs(src, fname, func, specs, imp, tree, seen_names, old=None):
     fd = _find_func(tree, func, fname)
     assigns = _assignments(fd.body, [])
+    local = LocalDefs(fd)
     defs = []
     for sp in specs:
         hits = [a for a in assigns if a[0] == sp.target]
@@ -1155,14 +1450,18 @@ def _formula_defs(src, fname, func, specs, imp, tree, seen_names):
 
         def emit(name, tr, code, ty, what):
             keys = ", ".join(f"`{k}`" for k in tr.params) or "none"
-            defs.append(f"/-- `{func}`, assignment #{sp.occ} to `{sp.target}`{what}:\n    `{text}`\n"
+            inl_txt = ("`\n    with the local definitions inlined: `" + "`, `".join(f"{a} = {b}" for a, b in tr.inlined)) \
+                if tr.inlined else ""
+            defs.append(f"/-- `{func}`, assignment #{sp.occ} to `{sp.target}`{what}:\n    `{text}{inl_txt}`\n"
                         f"    parameters: {keys} -/\ndef {lean_name(name)}{tr.binders()} : {ty} :=\n  {code}\n")
-        tr = FormulaTr(src, fname, imp, sp.ints)
+        keep = _keep_for(old, sp.name)
+        inl = (local, st, keep) if keep is not None else None
+        tr = FormulaTr(src, fname, imp, sp.ints, inl)
         # `[e] * k`: a list of k copies of e -> element and count
         if (augop is None and isinstance(value, ast.BinOp) and isinstance(value.op, ast.Mult)
                 and isinstance(value.left, ast.List) and len(value.left.elts) == 1):
             emit(sp.name + "_elem", tr, tr.expr(value.left.elts[0]), "α", " (element of the repeated list)")
-            tr2 = FormulaTr(src, fname, imp, sp.ints)
+            tr2 = FormulaTr(src, fname, imp, sp.ints, inl)
             c, t = tr2.texpr(value.right)
             if t not in ("Int", "intlit"):
                 _bad(value, fname, "list repetition count must be an int expression")
@@ -1180,13 +1479,14 @@ def _formula_defs(src, fname, func, specs, imp, tree, seen_names):
     return defs
 
 
-def translate_formula_groups(groups, namespace: str, title: str) -> str:
+def translate_formula_groups(groups, namespace: str, title: str, old_file=None) -> str:
     """several (source text, file name, function, specs) groups into ONE generated file; also the
     Int- and Bool-valued node kinds (`int(np.ceil(·))`, `%`, comparisons, `np.arange`, `[e]*k`, sort keys)"""
     defs, seen = [], set()
     for (src, fname, func, specs) in groups:
         tree = ast.parse(src)
-        defs += [f"/-! ### `{fname}`: `{func}` -/\n"] + _formula_defs(src, fname, func, specs, Imports(tree), tree, seen)
+        defs += [f"/-! ### `{fname}`: `{func}` -/\n"] + _formula_defs(src, fname, func, specs, Imports(tree), tree, seen,
+                                                                      _old_params(old_file) if old_file else None)
     head = (
         f"/-\n  GENERATED by harness/translate.py (formula extraction) - {title} - DO NOT EDIT.\n"
         "  Regenerated on every run of the property checks that own the hand-written model;\n"
@@ -1198,11 +1498,13 @@ def translate_formula_groups(groups, namespace: str, title: str) -> str:
     return head + "\n".join(defs) + f"\nend {namespace}\n"
 
 
-def translate_formulas(src: str, fname: str, func: str, specs, namespace: str, out_name: str) -> str:
+def translate_formulas(src: str, fname: str, func: str, specs, namespace: str, out_name: str, old_file=None) -> str:
     tree = ast.parse(src)
     imp = Imports(tree)
     fd = _find_func(tree, func, fname)
     assigns = _assignments(fd.body, [])
+    local = LocalDefs(fd)
+    old = _old_params(old_file) if old_file else None
     defs = []
     any_pi = False
     seen_names = set()
@@ -1212,7 +1514,8 @@ def translate_formulas(src: str, fname: str, func: str, specs, namespace: str, o
             raise TranslatorError(f"{fname}: {func} has {len(hits)} assignment(s) to `{sp.target}`, "
                                   f"the tie needs #{sp.occ} (definition {sp.name})")
         _, value, st, augop = hits[sp.occ - 1]
-        tr = FormulaTr(src, fname, imp)
+        keep = _keep_for(old, sp.name)
+        tr = FormulaTr(src, fname, imp, (), (local, st, keep) if keep is not None else None)
         if augop is not None:
             # x op= e  is  x = x op (e)
             if type(augop) in BINOPS:
@@ -1233,6 +1536,8 @@ def translate_formulas(src: str, fname: str, func: str, specs, namespace: str, o
         binder = f" ({' '.join(ps)} : α)" if ps else ""
         text = " ".join(ast.unparse(st).split()).replace("-/", "- /")
         keys = ", ".join(f"`{k}`" for k in tr.params) or "none"
+        if tr.inlined:
+            text += "`\n    with the local definitions inlined: `" + "`, `".join(f"{a} = {b}" for a, b in tr.inlined)
         defs.append(
             f"/-- `{func}`, assignment #{sp.occ} to `{sp.target}`:\n    `{text}`\n    parameters: {keys} -/\n"
             f"def {lean_name(sp.name)}{binder} : α :=\n  {code}\n")
